@@ -336,8 +336,7 @@ theorem applyImp_spec {env : Env} (he : EnvOk env) {s : St} (hi : Inv env s) (id
       (applyImp env s id imp).1.text (s.mockers id).target = overwrite (env.pristine (s.mockers id).target) (jumpTo (impAddr env imp))) ∧
     ((applyImp env s id imp).2 ≠ none → (applyImp env s id imp).1.text (s.mockers id).target = env.pristine (s.mockers id).target) ∧
     (applyImp env s id imp).1.cache = s.cache ∧ (applyImp env s id imp).1.keys = s.keys ∧
-    (∀ j, ((applyImp env s id imp).1.mockers j).target = (s.mockers j).target ∧
-          ((applyImp env s id imp).1.mockers j).canceled = (s.mockers j).canceled) := by
+    (∀ j, ((applyImp env s id imp).1.mockers j).target = (s.mockers j).target) := by
   obtain ⟨r1, r2, r3, r4, r5, r6, _, r8⟩ := replaceFunc_spec he hi (s.mockers id).target (impAddr env imp) (s.mockers id).origin
   unfold applyImp
   simp only []
@@ -350,7 +349,7 @@ theorem applyImp_spec {env : Env} (he : EnvOk env) {s : St} (hi : Inv env s) (id
       simp only []
       refine ⟨r1, r3, ?_, fun _ => r2, r5, r6, ?_⟩
       · intro h; cases h
-      · intro j; rw [r4]; exact ⟨rfl, rfl⟩
+      · intro j; rw [r4]
     | ok g =>
       simp only []
       obtain ⟨fr, _⟩ := r8 g rfl
@@ -471,6 +470,25 @@ theorem getMocker_spec {env : Env} {s : St} (hi : Inv env s) (b key : Nat) :
     by_cases hcan : (s.mockers id).canceled = true
     · simp only [hcan, if_true]; exact fresh_ok
     · simp only [hcan]; exact ⟨hi, rfl, (hi.ck b key id hc).1, by simpa using hcan, rfl⟩
+
+theorem clearWhen_spec {env : Env} {s : St} (hi : Inv env s) (id : Nat) :
+    Inv env (clearWhen s id) ∧ (clearWhen s id).text = s.text := by
+  have hm : ∀ j, ((clearWhen s id).mockers j).target = (s.mockers j).target ∧ ((clearWhen s id).mockers j).guard = (s.mockers j).guard := by
+    intro j; by_cases hj : j = id <;> simp [clearWhen, upd, hj]
+  refine ⟨⟨hi.saved, hi.txt, hi.reg, ?_, ?_⟩, rfl⟩
+  · intro j g h; rw [(hm j).2] at h; rw [(hm j).1]; exact hi.mg j g h
+  · intro b key j h; rw [(hm j).1]; exact hi.ck b key j h
+
+/-- the public `Apply`: same facts as `applyImp` (dropping the old `When` touches neither text nor guards) -/
+theorem applyCb_spec {env : Env} (he : EnvOk env) {s : St} (hi : Inv env s) (id k : Nat) :
+    Inv env (applyCb env s id k).1 ∧
+    (applyCb env s id k).1.text = (applyImp env s id (.cb k)).1.text ∧
+    (applyCb env s id k).2 = (applyImp env s id (.cb k)).2 := by
+  have a := (applyImp_spec he hi id (.cb k)).1
+  unfold applyCb
+  cases h : (applyImp env s id (.cb k)).2 with
+  | none => exact ⟨(clearWhen_spec a id).1, rfl, rfl⟩
+  | some e => exact ⟨a, rfl, rfl⟩
 
 /-! ### Origin, whens, Reset -/
 
